@@ -120,6 +120,25 @@ Proof.
   cbn [map on_snd fst snd nodup_keys]. rewrite key_in_map, IH. reflexivity.
 Qed.
 
+(* proof-internal restatement of the encoder (it coincides with to_json after the repairs):
+   a list is an array, a keyed array and an object are JSON objects with their keys in
+   order, an int is an integer token, a finite float is a fraction/exponent token (it stays a
+   float when read back); NaN, the infinities and text that is not UTF-8 cannot be encoded *)
+Fixpoint spec_to_json (int_bits : Z -> N) (v : pval) : option jtree :=
+  match v with
+  | PNull => Some JNull
+  | PBool b => Some (JBool b)
+  | PInt z => Some (JNum true z (int_bits z))
+  | PFloat b => if f_finite b then Some (JNum false 0 b) else None
+  | PStr s => if utf8_valid s then Some (JStr s) else None
+  | PList l => match opt_map_all (spec_to_json int_bits) l with Some ts => Some (JArr ts) | None => None end
+  | PMap l | PArr l =>
+      match opt_map_all (fun kv => match (if utf8_valid (fst kv) then spec_to_json int_bits (snd kv) else None) with
+                                   | Some t => Some (fst kv, t) | None => None end) l with
+      | Some ts => Some (JObj ts) | None => None end
+  end.
+
+
 (* ------------------------------------------------------------------ J1: the encoder *)
 Lemma encoder_agrees_l : forall ib v, to_json ib v = spec_to_json ib v.
 Proof.
@@ -322,4 +341,90 @@ Proof.
   destruct (spec_roundtrip_l ib true v Hs) as (t & Et & Ev). exists t. split; [exact Et|].
   rewrite json_decode_assoc_agrees_l by (eapply spec_tree_keys; eauto). unfold spec_decode. rewrite Ev.
   replace (depth <? nesting (view true v))%Z with false by lia. reflexivity.
+Qed.
+
+(* ------------------------------------------------------------------ the encoder, stated against the reader *)
+Lemma json_encode_denotes_l : forall ib assoc v, spec_ok v = true ->
+  exists t, json_encode ib v = Some t /\ spec_of_json assoc t = view assoc v.
+Proof.
+  intros ib assoc v H. unfold json_encode. rewrite encoder_agrees_l. apply spec_roundtrip_l. exact H.
+Qed.
+
+Lemma opt_map_all_none : forall {A B} (f : A -> option B) l,
+  opt_map_all f l = None <-> exists x, In x l /\ f x = None.
+Proof.
+  intros A B f. induction l as [|x l IH]; cbn.
+  - split; [discriminate|intros (x & [] & _)].
+  - destruct (f x) eqn:E.
+    + destruct (opt_map_all f l) eqn:E2.
+      * split; [discriminate|]. intros (y & [<-|Hy] & Hn); [congruence|].
+        assert (@None (list B) = None) as _ by reflexivity.
+        destruct IH as [_ IH]. discriminate IH. exists y. auto.
+      * split; [|reflexivity]. intros _. destruct IH as [IH _]. destruct (IH eq_refl) as (y & Hy & Hn).
+        exists y. auto.
+    + split; [|reflexivity]. intros _. exists x. auto.
+Qed.
+
+Lemma json_encode_refuses_l : forall ib v, json_encode ib v = None <-> encodable v = false.
+Proof.
+  intros ib v. unfold json_encode.
+  induction v as [| b | z | b | s | l IH | l IH | l IH] using pval_ind2; cbn [to_json encodable].
+  - split; discriminate.
+  - split; discriminate.
+  - split; discriminate.
+  - destruct (f_finite b); split; congruence.
+  - destruct (utf8_valid s); split; congruence.
+  - destruct (opt_map_all (to_json ib) l) eqn:E.
+    + split; [discriminate|]. intros Hf. exfalso.
+      assert (exists x, In x l /\ encodable x = false) as (x & Hx & Hn).
+      { clear -Hf. induction l as [|y l IHl]; [discriminate|]. cbn [forallb] in Hf.
+        destruct (encodable y) eqn:Ey; [|exists y; split; [left; reflexivity|exact Ey]].
+        destruct (IHl Hf) as (x & Hx & Hn). exists x. split; [right; exact Hx|exact Hn]. }
+      rewrite Forall_forall in IH. apply (IH x Hx) in Hn.
+      assert (opt_map_all (to_json ib) l = None) by (apply opt_map_all_none; exists x; auto). congruence.
+    + split; [|reflexivity]. intros _. apply opt_map_all_none in E. destruct E as (x & Hx & Hn).
+      rewrite Forall_forall in IH. apply (IH x Hx) in Hn.
+      clear -Hx Hn. induction l as [|y l IHl]; [destruct Hx|]. cbn [forallb]. destruct Hx as [<-|Hx].
+      * rewrite Hn. reflexivity.
+      * rewrite (IHl Hx). apply andb_false_r.
+  - match goal with |- context [opt_map_all ?f l] => set (g := f) end.
+    assert (Hg : forall kv, In kv l -> (g kv = None <-> (utf8_valid (fst kv) && encodable (snd kv)) = false)).
+    { intros kv Hin. unfold g. rewrite Forall_forall in IH. specialize (IH kv Hin).
+      destruct (utf8_valid (fst kv)); cbn [andb]; [|split; reflexivity].
+      destruct (to_json ib (snd kv)) eqn:E; split; intros H; try discriminate; try reflexivity.
+      - apply IH in H. discriminate.
+      - apply IH. reflexivity. }
+    destruct (opt_map_all g l) eqn:E.
+    + split; [discriminate|]. intros Hf. exfalso.
+      assert (exists x, In x l /\ (utf8_valid (fst x) && encodable (snd x)) = false) as (x & Hx & Hn).
+      { clear -Hf. induction l as [|y l IHl]; [discriminate|]. cbn [forallb] in Hf.
+        destruct (utf8_valid (fst y) && encodable (snd y)) eqn:Ey; [|exists y; split; [left; reflexivity|exact Ey]].
+        destruct (IHl Hf) as (x & Hx & Hn). exists x. split; [right; exact Hx|exact Hn]. }
+      apply (Hg x Hx) in Hn.
+      assert (opt_map_all g l = None) by (apply opt_map_all_none; exists x; auto). congruence.
+    + split; [|reflexivity]. intros _. apply opt_map_all_none in E. destruct E as (x & Hx & Hn).
+      apply (Hg x Hx) in Hn.
+      clear -Hx Hn. induction l as [|y l IHl]; [destruct Hx|]. cbn [forallb]. destruct Hx as [<-|Hx].
+      * rewrite Hn. reflexivity.
+      * rewrite (IHl Hx). apply andb_false_r.
+  - match goal with |- context [opt_map_all ?f l] => set (g := f) end.
+    assert (Hg : forall kv, In kv l -> (g kv = None <-> (utf8_valid (fst kv) && encodable (snd kv)) = false)).
+    { intros kv Hin. unfold g. rewrite Forall_forall in IH. specialize (IH kv Hin).
+      destruct (utf8_valid (fst kv)); cbn [andb]; [|split; reflexivity].
+      destruct (to_json ib (snd kv)) eqn:E; split; intros H; try discriminate; try reflexivity.
+      - apply IH in H. discriminate.
+      - apply IH. reflexivity. }
+    destruct (opt_map_all g l) eqn:E.
+    + split; [discriminate|]. intros Hf. exfalso.
+      assert (exists x, In x l /\ (utf8_valid (fst x) && encodable (snd x)) = false) as (x & Hx & Hn).
+      { clear -Hf. induction l as [|y l IHl]; [discriminate|]. cbn [forallb] in Hf.
+        destruct (utf8_valid (fst y) && encodable (snd y)) eqn:Ey; [|exists y; split; [left; reflexivity|exact Ey]].
+        destruct (IHl Hf) as (x & Hx & Hn). exists x. split; [right; exact Hx|exact Hn]. }
+      apply (Hg x Hx) in Hn.
+      assert (opt_map_all g l = None) by (apply opt_map_all_none; exists x; auto). congruence.
+    + split; [|reflexivity]. intros _. apply opt_map_all_none in E. destruct E as (x & Hx & Hn).
+      apply (Hg x Hx) in Hn.
+      clear -Hx Hn. induction l as [|y l IHl]; [destruct Hx|]. cbn [forallb]. destruct Hx as [<-|Hx].
+      * rewrite Hn. reflexivity.
+      * rewrite (IHl Hx). apply andb_false_r.
 Qed.
